@@ -18,7 +18,9 @@ use mc_core::{json, Budget, Tier};
 
 #[derive(Clone, Debug, PartialEq, Eq)]
 enum Op {
-    ByteAt(usize),
+    /// one refill (`request_more`), enabled while fewer than m bytes are buffered: a look-ahead
+    /// `request_byte_at_offset(k)` with k < m is a sequence of these
+    More,
     Advance(usize),
     SetChunk(usize),
 }
@@ -31,8 +33,8 @@ struct Step {
 
 fn apply(r: &mut DeferredReader, op: &Op) {
     match op {
-        Op::ByteAt(k) => {
-            r.request_byte_at_offset(*k);
+        Op::More => {
+            r.request_more();
         }
         Op::Advance(n) => r.advance(*n),
         Op::SetChunk(c) => r.set_chunk_size(*c),
@@ -78,7 +80,10 @@ fn expand(cfg: &Cfg, data: &[u8], hist: &Vec<Step>, report: &mut Report) -> Vec<
     let bl = r.buf_len();
     let cur_chunk = r.verif_state().chunk_size;
     drop(r);
-    let mut ops: Vec<Op> = (0..cfg.m).map(Op::ByteAt).collect();
+    let mut ops: Vec<Op> = Vec::new();
+    if bl < cfg.m {
+        ops.push(Op::More);
+    }
     for n in 1..=cfg.m.min(bl) {
         ops.push(Op::Advance(n));
     }
@@ -140,8 +145,8 @@ pub fn run(tier: Tier, report: &mut Report) {
     let ms: &[usize] = tier.pick(&[1, 2, 3, 5, 9][..], &[1, 2, 3, 5, 9, 17, 40][..]);
     for &chunk in chunks {
         for &m in ms {
-            if tier == Tier::Quick && chunk * m > 40 {
-                continue;
+            if chunk * m > tier.pick(80, 700) {
+                continue; // the state space (and the memory for the histories) grows with chunk * m
             }
             cfgs.push(Cfg { chunk, m, chunks: vec![] });
         }
@@ -159,7 +164,7 @@ pub fn run(tier: Tier, report: &mut Report) {
         let k0 = key(&r);
         drop(r);
         let predicted = (3 * cfg.chunk + cfg.m + 2) * (cfg.m + cfg.chunk + 2) * 8;
-        let res = bfs(vec![(Vec::<Step>::new(), k0)], |h, rep| expand(cfg, &data, h, rep), 50 * predicted + 10_000, 4000, &budget, 1, &mut local);
+        let res = bfs(vec![(Vec::<Step>::new(), k0)], |h, rep| expand(cfg, &data, h, rep), (50 * predicted + 10_000).min(1_500_000), 4000, &budget, 1, &mut local);
         (local, res)
     });
     let mut closed = 0;
@@ -179,7 +184,7 @@ pub fn run(tier: Tier, report: &mut Report) {
         report.completed.push(format!("reader fixpoint: all {} (chunk, item size) configurations closed: the buffer bound holds for streams of every length", cfgs.len()));
     }
     report.traces = report.transitions;
-    report.sample(json!({"configuration": {"chunk": 2, "m": 3}, "history": ["ByteAt(2) with reads [1,2]", "Advance(3)", "ByteAt(0) with read [2]", "Advance(1)", "..."], "key": "pos_in_buf, valid_len, buf.len(), capacity, chunk"}));
+    report.sample(json!({"configuration": {"chunk": 2, "m": 3}, "history": ["More (read delivers 1)", "More (2)", "Advance(3)", "More (2)", "Advance(1)", "..."], "key": "pos_in_buf, valid_len, buf.len(), capacity, chunk"}));
 }
 
-pub const RULE: &str = "reader half: per (chunk, item size m) configuration, BFS to a fixpoint over {request_byte_at_offset(k<m), advance(1..=min(m,buf_len)), mid-stream set_chunk_size} x every read size 1..=chunk on an endless stamped stream; key = buffer management state without stream offset / mark; invariant buf.len() <= 8*chunk + 4*m + 64 and capacity <= 2x that in every reachable state; non-trivial = transitions in states whose buffer has been realigned (pos_of_buf > 0). Parser half: see the format parts";
+pub const RULE: &str = "reader half: per (chunk, item size m) configuration, BFS to a fixpoint over {request_more while fewer than m bytes are buffered (every request_byte_at_offset(k<m) is a sequence of these), advance(1..=min(m,buf_len)), mid-stream set_chunk_size} x every read size 1..=chunk on an endless stamped stream; key = buffer management state without stream offset / mark; invariant buf.len() <= 8*chunk + 4*m + 64 and capacity <= 2x that in every reachable state; non-trivial = transitions in states whose buffer has been realigned (pos_of_buf > 0). Parser half: see the format parts";
